@@ -79,8 +79,9 @@ func (c *compiler) expandExpression(expr []token, line int) ([]token, error) {
 	input := expr
 	var output []token
 
-	for !exprEqual(input, output) {
-		if len(output) > 0 {
+	for first := true; first || !exprEqual(input, output); first = false {
+		// an empty output is a result too (a symbol defined as nothing)
+		if !first {
 			input = output
 		}
 
